@@ -60,8 +60,7 @@ Qed.
 Definition item_reader_ok (inplace : bool) (cd : coldesc) (it : litem) : Prop :=
   match it with
   | LDict _ _ => True
-  | LData p => store_ok_for_reader cd (lp_store p) /\
-               (lp_v2 p = true -> inplace = true -> match lp_store p with SPlain _ => num_width (cd_type cd) <> None | _ => True end) /\
+  | LData p => (lp_v2 p = true -> inplace = true -> match lp_store p with SPlain _ => num_width (cd_type cd) <> None | _ => True end) /\
                (lp_v2 p = true -> match lp_store p with SDelta _ _ _ => v2_nn cd p = 0 | _ => True end)
   end.
 
@@ -135,14 +134,14 @@ Proof.
       reflexivity.
     + (* data page *)
       cbn [item_content] in IC. destruct (page_cells cd dict p) as [cs|] eqn:PC; [|discriminate]. injection IC as <-.
-      cbn [next_dict] in ICr. cbn [item_wf] in Wit. cbn [item_reader_ok] in ROit. destruct ROit as (RO1 & RO2 & RO3).
+      cbn [next_dict] in ICr. cbn [item_wf] in Wit. cbn [item_reader_ok] in ROit. destruct ROit as (RO2 & RO3).
       cbn [item_nvals] in ROWS.
       destruct (lp_v2 p) eqn:V2.
       * (* v2 *)
         unfold hp in *. cbn [enc_item] in *. rewrite (enc_v2_shape compress cd codec p V2) in *.
         cbn [fst snd ph_usize ph_csize ph_body] in *.
         rewrite z2n_add. cbn [rbind].
-        pose proof (rd_page_v2_spec compress decompress codec_rt inplace cd dict codec p cs V2 Wit RO1 PC (RO2 eq_refl) (RO3 eq_refl)) as RD.
+        pose proof (rd_page_v2_spec compress decompress codec_rt inplace cd dict codec p cs V2 Wit PC (RO2 eq_refl) (RO3 eq_refl)) as RD.
         rewrite ?lenN_app. rewrite RD. cbn [rbind v2_header d2_nvals]. rewrite z2n_of_N. cbn [rbind].
         rewrite (IH clock' dict (num + lp_nvals p) (rev_append cs acc) cr Wr Hr ROr ICr L') by lia.
         cbn [map concat content_cells]. rewrite rev_append_rev, rev_app_distr, rev_involutive, <- app_assoc. reflexivity.
@@ -150,7 +149,7 @@ Proof.
         unfold hp in *. cbn [enc_item] in *. rewrite (enc_v1_shape cd codec p V2) in *.
         cbn [fst snd ph_usize ph_csize ph_body] in *.
         rewrite z2n_of_N. cbn [rbind]. rewrite read_page_deflate. cbn [rbind].
-        rewrite (rd_col_page_v1_spec cd dict p cs Wit RO1 PC). cbn [rbind v1_header d_nvals]. rewrite z2n_of_N. cbn [rbind].
+        rewrite (rd_col_page_v1_spec cd dict p cs Wit PC). cbn [rbind v1_header d_nvals]. rewrite z2n_of_N. cbn [rbind].
         rewrite (IH clock' dict (num + lp_nvals p) (rev_append cs acc) cr Wr Hr ROr ICr L') by lia.
         cbn [map concat content_cells]. rewrite rev_append_rev, rev_app_distr, rev_involutive, <- app_assoc. reflexivity.
 Qed.
